@@ -1,8 +1,12 @@
 #!/bin/sh
-# re-run every stored independently written change against the current checks (quick tier);  usage: tools/seedall.sh [ID ...]
+# re-run every stored independently written change against the current checks, each in a scratch worktree of /repo
+# (RKCOMMON_REPO), so /repo itself stays untouched;  usage: tools/seedall.sh [ID ...]
+# seeds that only the thorough tier is expected to catch (sizes / distances of 2^31.. / 64 MiB.. / 4 MiB..) run that tier
 cd "$(dirname "$0")/.."
+THOROUGH=" C11-D C19-C C20-C C20-D "
 for d in seeded/*/; do
   n=$(basename "$d"); p=${n%%-*}; l=${n##*-}
   if [ $# -gt 0 ]; then case " $* " in *" $p "*) ;; *) continue;; esac; fi
-  tools/seedrun.py "$p" "$l" "/verif/seeded/$n" --skip-verify 2>&1 | tail -1
+  tier=quick; case "$THOROUGH" in *" $n "*) tier=thorough;; esac
+  tools/seedrun.py "$p" "$l" "/verif/seeded/$n" --skip-verify --scratch --tier $tier 2>&1 | tail -1
 done
